@@ -792,6 +792,40 @@ pub fn wrong_value(text: &str, norm: &str) -> Option<String> {
     }
 }
 
+/// Directed, seed-independent: a big unit (兆 / 億 / 万) followed by a small group whose coefficient carries a FRACTION and
+/// then a small unit, where the addends have leading / trailing zeros ("7兆九0.7十", "三億0.50千", "1万00.5百", "九0.7十").
+/// These are the numerals on which StringNumber::add depends on int_length normalising its argument first (the scaled
+/// coefficient has to be brought to "digits, point" form before its integer length is taken).  Accepted and rejected shapes
+/// alike; nothing here is an expectation -- the expected value comes from the exact reference (ref_units) and the Coq model.
+pub fn big_fraction_unit_numerals() -> Vec<String> {
+    let bigs = ["", "7兆", "三億", "1万", "7兆三億", "二千万", "十億"];
+    let coefs = ["九0.7", "0.50", "00.5", "9.5", "90.70", "九〇.七", "0.05", "10.0", "1.50", "100.25", "0.7", "〇.五〇", "2.50", "09.9"];
+    let smalls = ["十", "百", "千"];
+    let tails = ["", "三", "二十", "5"];
+    let mut out = vec![];
+    for (bi, b) in bigs.iter().enumerate() {
+        for (ci, c) in coefs.iter().enumerate() {
+            for (si, u) in smalls.iter().enumerate() {
+                // all tails for the shapes of the report, a rotating one otherwise (keeps the group small)
+                for (ti, t) in tails.iter().enumerate() {
+                    if ci > 2 && ti != (bi + ci + si) % tails.len() {
+                        continue;
+                    }
+                    out.push(format!("{}{}{}{}", b, c, u, t));
+                }
+            }
+        }
+        // the same coefficient in front of a BIG unit, and two fraction groups in a row
+        for c in coefs.iter().take(6) {
+            out.push(format!("{}{}万", b, c));
+            out.push(format!("{}{}千{}百", b, c, c));
+        }
+    }
+    out.sort();
+    out.dedup();
+    out
+}
+
 // ------------------------------------------------------------------------------------------------ cases
 fn parse_case(sink: &mut Sink, text: &str, expected: Option<&str>, want_err: Option<u8>, tag: &str, verbose: bool) {
     let r = catch(|| verif_parse_numeral(text));
@@ -1362,7 +1396,7 @@ pub fn plain_dict(work: &Path) -> JapaneseDictionary {
 
 pub fn run(args: &Args) {
     let mut sink = Sink::new("C15", &args.out, &["Model.Numeric", "Model.NumericCanon"], args.seed, &args.tier);
-    sink.rule("(a) numeral parser via verif_parse_numeral vs Coq model: numerals generated FROM A VALUE (plain Arabic/kanji/mixed digits up to 150 digits, comma groups, fractions with trailing zeros, unit notation 十..兆 below 10^16 with optional/positional coefficients, fraction x unit, long digit string x large unit) with the expected rendering; near-miss malformed strings (bad comma groups, dangling/double points, swapped or repeated units) with the required error state; random strings over the numeral alphabet checked against an exact fixed-point reference ('never a wrong value'); (a') canonical writings of values 0 < n < 10^16 exactly as defined in Model/NumericCanon.v (per group kanji units with written / omitted 一 and kanji / Arabic coefficients, or Arabic digits + large unit): the Coq term rebuilds the string from the value; (a'') two non-zero groups with arbitrary large units (descending, repeated, increasing): accepted iff C15_unit_order_behaviour says so, value = sum; (b') sentences with several numerals: malformed groupings and stray separators before well-formed numerals, every well-formed numeral must be joined with the rendering of its value whatever preceded it; dictionary words that begin with a numeral character (四半期, 一人, 千葉, 万年筆 ...) directly after numerals; (b'') the numeral IS the whole text (paths of one node: single digits, kanji digits, 十 百 千; of a few nodes), bare and between blanks, modes A/B/C; sentence segments on their own; one-token texts that are not numerals and the empty text must be analysed as without the plugin; (b) the same numerals embedded in text and analysed with a dictionary tagging digits/units as numerals and JoinNumericPlugin: one token, normalised form = rendering; malformed: pieces only; (c) the pipeline cases repeated with a StatefulTokenizer restricted to 14 word-info field subsets (with / without NORMALIZED_FORM, POS_ID, SURFACE, ...) in modes A/B/C: same boundaries as with all fields, same normalised forms when requested, well-formed numeral = one token with the expected rendering.  (d) the `sudachi` command-line tool in its default mode (every line through the sentence splitter, then the tokenizer) and with -a: numerals generated from values with ASCII / full-width / mixed-width digits, full-width separators and points, alone on a line and inside sentences, directed ones first (３．１４, １，２３４．５０, ...): ONE token, normalised-form column = rendering of the value.  non-trivial = more than one character (parser) / at least one merge (pipeline)");
+    sink.rule("(a) numeral parser via verif_parse_numeral vs Coq model: numerals generated FROM A VALUE (plain Arabic/kanji/mixed digits up to 150 digits, comma groups, fractions with trailing zeros, unit notation 十..兆 below 10^16 with optional/positional coefficients, fraction x unit, long digit string x large unit) with the expected rendering; near-miss malformed strings (bad comma groups, dangling/double points, swapped or repeated units) with the required error state; random strings over the numeral alphabet checked against an exact fixed-point reference ('never a wrong value'); (a') canonical writings of values 0 < n < 10^16 exactly as defined in Model/NumericCanon.v (per group kanji units with written / omitted 一 and kanji / Arabic coefficients, or Arabic digits + large unit): the Coq term rebuilds the string from the value; (a'') two non-zero groups with arbitrary large units (descending, repeated, increasing): accepted iff C15_unit_order_behaviour says so, value = sum; (b') sentences with several numerals: malformed groupings and stray separators before well-formed numerals, every well-formed numeral must be joined with the rendering of its value whatever preceded it; dictionary words that begin with a numeral character (四半期, 一人, 千葉, 万年筆 ...) directly after numerals; (b'') the numeral IS the whole text (paths of one node: single digits, kanji digits, 十 百 千; of a few nodes), bare and between blanks, modes A/B/C; sentence segments on their own; one-token texts that are not numerals and the empty text must be analysed as without the plugin; (a+) DIRECTED whatever the seed: big unit (兆 億 万) + small group whose coefficient has a fraction and leading / trailing zeros + small unit (7兆九0.7十, 三億0.50千, 1万00.5百, 九0.7十 ..., accepted and rejected), through the parser (model = implementation, value = exact reference), through the analysis and through the command-line tool; (b) the same numerals embedded in text and analysed with a dictionary tagging digits/units as numerals and JoinNumericPlugin: one token, normalised form = rendering; malformed: pieces only; (c) the pipeline cases repeated with a StatefulTokenizer restricted to 14 word-info field subsets (with / without NORMALIZED_FORM, POS_ID, SURFACE, ...) in modes A/B/C: same boundaries as with all fields, same normalised forms when requested, well-formed numeral = one token with the expected rendering.  (d) the `sudachi` command-line tool in its default mode (every line through the sentence splitter, then the tokenizer) and with -a: numerals generated from values with ASCII / full-width / mixed-width digits, full-width separators and points, alone on a line and inside sentences, directed ones first (３．１４, １，２３４．５０, ...): ONE token, normalised-form column = rendering of the value.  non-trivial = more than one character (parser) / at least one merge (pipeline)");
     if let Some(p) = &args.replay {
         let v: Value = serde_json::from_str(&std::fs::read_to_string(p).unwrap()).unwrap();
         let c = &v["case"];
@@ -1430,6 +1464,11 @@ pub fn run(args: &Args) {
     for (t, e) in DIRECTED_BAD.iter() {
         parse_case(&mut sink, t, None, Some(*e), "directed_bad", false);
     }
+    // directed, whatever the seed: big unit + small group with a fraction and a small unit, addends with leading / trailing zeros
+    let bfu = big_fraction_unit_numerals();
+    for t in bfu.iter() {
+        parse_case(&mut sink, t, None, None, "directed_big_fraction_unit", false);
+    }
     // structured mostly-valid stream
     for _ in 0..args.n(900, 20000) {
         let n = gen_wellformed(&mut rng);
@@ -1475,6 +1514,18 @@ pub fn run(args: &Args) {
     }
     for (t, _) in DIRECTED_BAD.iter() {
         pipeline_case(&mut sink, &dict, "", t, "円", None, true, "directed_bad", false);
+    }
+    // the directed big-unit / fraction / small-unit numerals through the analysis: every joined piece must carry the value the
+    // exact reference gives its surface (those the parser accepts: ONE token with that value)
+    for (k, t) in bfu.iter().enumerate() {
+        let (pre, post) = [("東京都に", "に"), ("", "円"), ("京都", ""), ("", "")][k % 4];
+        // (a rendering with leading zeros -- "0.7百5" is "075" -- is the parser's convention for digit strings: such pieces are
+        // compared with the reference value modulo leading zeros by the piece oracle instead)
+        let exp = match (catch(|| verif_parse_numeral(t)), ref_units(t)) {
+            (Ok((true, _, norm)), RefVal::Value(v)) if norm == v => Some(v),
+            _ => None,
+        };
+        pipeline_case(&mut sink, &dict, pre, t, post, exp.as_deref(), false, "directed_big_fraction_unit", false);
     }
     // the same with the key enableNormalize ABSENT from the plugin's settings (third value next to true / false): directed
     // numerals first, then numerals generated from values
@@ -1715,6 +1766,18 @@ fn cli_run(sink: &mut Sink, args: &Args, lines: &[CliLine], flags: &[String], ve
 
 fn cli_section(sink: &mut Sink, rng: &mut Rng, args: &Args) {
     let mut lines: Vec<CliLine> = CLI_DIRECTED.iter().map(|(a, b, c, d)| CliLine { pre: a.to_string(), num: b.to_string(), post: c.to_string(), expected: d.to_string(), tag: "directed" }).collect();
+    // directed big unit + fraction + small unit numerals the parser accepts: one token whose normalised form is the value the
+    // exact reference gives (every fourth with full-width digits and point)
+    for (k, t) in big_fraction_unit_numerals().iter().enumerate().filter(|(k, _)| k % 3 == 0) {
+        if let (Ok((true, _, norm)), RefVal::Value(v)) = (catch(|| verif_parse_numeral(t)), ref_units(t)) {
+            if strip_leading_zeros(&norm) != norm {
+                continue; // rendering with leading zeros: see the analysis route
+            }
+            let num = if k % 4 == 0 { fullwidth_all(t, true) } else { t.clone() };
+            let (pre, post) = [("東京都に", "に"), ("", ""), ("", "円")][k % 3];
+            lines.push(CliLine { pre: pre.into(), num, post: post.into(), expected: v, tag: "directed_big_fraction_unit" });
+        }
+    }
     let pres = ["", "京都", "に", "東京都に", "コーヒー"];
     let posts = ["", "に", "円", "京都", "円と", "カップ"];
     for k in 0..args.n(240, 4000) {
